@@ -90,6 +90,7 @@ def replay_schedule(agp, sched, kind, dtype, implicit):
     el = {n: EdgeLabel(n, [nl[x] for x in d['type']], is_terminal=d['t'], is_nonterminal=not d['t']) for n, d in agp['els'].items()}
     g = FGG(el[agp['start']])
     rhs, nodes, added = {}, {}, set()
+    edges_made, rules_made = {}, {}
 
     def node(r, j):
         if (r, j) not in nodes:
@@ -103,8 +104,9 @@ def replay_schedule(agp, sched, kind, dtype, implicit):
             rhs.setdefault(it[1], Graph()).add_node(node(it[1], it[2]))
         elif k == 'edge':
             e = agp['rules'][it[1] - 1]['edges'][it[2] - 1]
-            rhs.setdefault(it[1], Graph()).add_edge(Edge(el[e['lab']], [node(it[1], a) for a in e['att']],
-                                                         id=None if implicit else f'e{it[1]}_{it[2]}'))
+            ed = Edge(el[e['lab']], [node(it[1], a) for a in e['att']], id=None if implicit else f'e{it[1]}_{it[2]}')
+            edges_made[(it[1], it[2])] = ed
+            rhs.setdefault(it[1], Graph()).add_edge(ed)
         elif k == 'rule':
             r = agp['rules'][it[1] - 1]
             gr = rhs.setdefault(it[1], Graph())
@@ -112,7 +114,8 @@ def replay_schedule(agp, sched, kind, dtype, implicit):
                 if not gr.has_node_id(node(it[1], j).id) and j not in r['ext']:
                     gr.add_node(node(it[1], j))     # (cannot happen: the machine requires every node)
             gr.ext = [node(it[1], a) for a in r['ext']]
-            g.add_rule(HRGRule(el[r['lhs']], gr))
+            rules_made[it[1]] = HRGRule(el[r['lhs']], gr)
+            g.add_rule(rules_made[it[1]])
         elif k == 'dom':
             g.add_domain(nl[it[1]], RangeDomain(agp['nls'][it[1]]))
         elif k == 'fac':
@@ -123,6 +126,10 @@ def replay_schedule(agp, sched, kind, dtype, implicit):
             g.add_factor(el[t], FiniteFactor([g.domains[x] for x in agp['els'][t]['type']], ten))
         elif k == 'lab':
             g.add_edge_label(el[it[1]])
+    info = {'rules': {ri: rules_made[ri + 1] for ri in range(len(agp['rules']))},
+            'nodes': {ri: [node(ri + 1, j + 1) for j in range(len(agp['rules'][ri]['nodes']))] for ri in range(len(agp['rules']))},
+            'edges': {ri: [edges_made[(ri + 1, k + 1)] for k in range(len(agp['rules'][ri]['edges']))] for ri in range(len(agp['rules']))}}
+    g._verif_info = info
     return g
 
 
@@ -133,7 +140,7 @@ def observe(agp, sched, idx):
         dtype = torch.bool if kind == 'bool' else (torch.float64 if idx % 2 == 0 else torch.float32)
         method = c01.METHODS[idx % 3]
         run = {'sr': c01.CARRIER[kind], 'tag': [kind, method, str(dtype).replace('torch.', ''), 'implicit' if idx % 2 else 'explicit'],
-               'out': 'ok', 'res': {}}
+               'out': 'ok', 'res': {}, 'hasgrad': False, 'grads': {}}
         try:
             g = replay_schedule(agp, sched, kind, dtype, implicit=bool(idx % 2))
             with warnings.catch_warnings():
@@ -147,14 +154,74 @@ def observe(agp, sched, idx):
             run['out'] = 'raise:' + type(e).__name__
             run['err'] = str(e)[:200]
         runs.append(run)
+    # gradients under this presentation (Real semiring, cotangent all ones)
+    run = {'sr': 'nat', 'tag': ['real', 'grad', 'float64', 'implicit' if idx % 2 else 'explicit'], 'out': 'ok', 'res': {}, 'hasgrad': True, 'grads': {}}
+    try:
+        g = replay_schedule(agp, sched, 'real', torch.float64, implicit=bool(idx % 2))
+        for f in g.factors.values():
+            f.weights.requires_grad_()
+        with warnings.catch_warnings():
+            warnings.simplefilter('ignore')
+            sp = fggs.sum_products(g, method=c01.METHODS[idx % 3], semiring=AG.semiring_for('real', torch.float64))
+            z = sp[g.start].to_dense()
+            if z.requires_grad:
+                z.sum().backward()
+        for l, t in sp.items():
+            if l.is_nonterminal:
+                run['res'][l.name] = AG.project_tensor(t.to_dense().detach(), 'real', torch.float64)
+        for t in AG.terms_of(agp):
+            gr = g.factors[t].weights.grad
+            n = len(agp['w'][t])
+            run['grads'][t] = [[ABSENT, ABSENT]] * n if gr is None else [[snap_int(float(x))] * 2 for x in gr.to_dense().reshape(-1).tolist()]
+    except Exception as e:  # noqa
+        run['out'] = 'raise:' + type(e).__name__
+        run['err'] = str(e)[:200]
+    runs.append(run)
     return runs
+
+
+def observe_viterbi(agp, sched, idx):
+    """viterbi on the presented grammar, every start assignment (judged by Trace_Viterbi)"""
+    import torch, fggs, itertools
+    from . import c04
+    cases = []
+    if any(x == INF for w in agp['wmp'].values() for x in w):
+        return cases
+    sh = AG.shape_of(agp, agp['start'])
+    for sa in itertools.product(*[range(s) for s in sh]):
+        c = {'ag': {k: agp[k] for k in ('nls', 'els', 'start', 'rules', 'wmp')}, 'sa': list(sa), 'out': 'ok', 'd': [{'rule': 1, 'parent': 0, 'via': 0, 'path': []}],
+             'assts': [[]], 'vit': [0, 0], 'dout': 'ok', 'dw': [0, 0], 'tag': ['presented', 'implicit' if idx % 2 else 'explicit']}
+        try:
+            g = replay_schedule(agp, sched, 'mp', torch.float64, implicit=bool(idx % 2))
+            sr = fggs.ViterbiSemiring(dtype=torch.float64)
+            with warnings.catch_warnings():
+                warnings.simplefilter('ignore')
+                with torch.no_grad():
+                    z = fggs.sum_product(g, semiring=sr).to_dense()
+                c['vit'] = AG.project_value(z[sa].item() if sa else z.item(), 'mp', torch.float64)
+                deriv = fggs.viterbi(g, tuple(sa), semiring=sr)
+            c['d'], c['assts'] = c04.serialise(deriv, g._verif_info, agp)
+            try:
+                graph, asst = deriv.derive()
+                w = 0.0
+                for e in graph.edges():
+                    if e.label.is_terminal:
+                        w += float(graph.factors[e.label.name].apply([asst[n] for n in e.nodes]))
+                c['dw'] = AG.project_value(w, 'mp', torch.float64)
+            except Exception as e:  # noqa
+                c['dout'] = 'raise:' + type(e).__name__
+        except Exception as e:  # noqa
+            c['out'] = 'raise:' + type(e).__name__
+            c['err'] = str(e)[:200]
+        cases.append(c)
+    return cases
 
 
 def _one(args):
     a, agp, ren, perm, sched, idx = args
     return {'ag': {k: a[k] for k in ('nls', 'els', 'start', 'rules', 'w', 'wmp')},
             'agp': {k: agp[k] for k in ('nls', 'els', 'start', 'rules', 'w', 'wmp')},
-            'ren': ren, 'perm': perm, 'sched': sched, 'runs': observe(agp, sched, idx)}
+            'ren': ren, 'perm': perm, 'sched': sched, 'runs': observe(agp, sched, idx), 'vit': observe_viterbi(agp, sched, idx)}
 
 
 def run(tier, seed):
@@ -177,6 +244,12 @@ def run(tier, seed):
         o.extra['targets'] = ntargets
         o.extra['schedules_replayed'] = len(jobs)
         cases = pmap(_one, jobs)
+        vcases = [v for c in cases for v in c.pop('vit')]
+        vv, st, tr, _ = judge_batch(work / 'vjudge', 'Trace_Viterbi', vcases, per_shard_min=20, heap='3g')
+        o.states += st
+        o.transitions += tr
+        o.absorb_verdicts(vcases, vv, load_findings(), part='viterbi')
+        o.extra['viterbi_cases_under_presentation'] = len(vcases)
         verdicts, st, tr, _ = judge_batch(work / 'judge', 'Trace_Present', cases, per_shard_min=15, heap='3g')
         o.states += st
         o.transitions += tr
